@@ -14,6 +14,7 @@ import os
 import re
 
 from .. import ast as A
+from .. import guardf as GF
 
 LEDGER = os.environ.get("DM_LEDGER") or os.path.join(os.path.dirname(os.path.dirname(os.path.dirname(os.path.dirname(os.path.abspath(__file__))))), "rules", "reject_ledger.json")
 PANIC_MACROS = {"panic", "assert", "assert_eq", "assert_ne"}
@@ -352,6 +353,10 @@ def collect(ctx):
                 if lets is None:
                     lets = _lets(fn)
                 chain = guard_chain(fn, x, ps, lets)
+                try:
+                    formula = GF.guard_formula(fn, x, ps, {n_: _r(e_) for n_, e_ in lets.items()}, lets)
+                except Exception as ex_:  # the formula is an aid for matching; the textual chain stays authoritative
+                    formula = ("atom", f"<unreadable: {type(ex_).__name__}>")
                 raised = True
                 if kind_ == "syn::Error":
                     raised = any(
@@ -379,7 +384,7 @@ def collect(ctx):
                 chain = ch2
                 raw_chain = list(chain)
                 canon = A.alpha(" && ".join(chain), numbered=False)
-                out.append({"key": key, "file": rel, "fn": fn.qual, "kind": kind_, "message": msg, "guard": canon, "chain": raw_chain, "node": x, "parents": ps, "fnobj": fn, "raised": raised, "where": ctx.where(f, x) if hasattr(ctx, "where") else ""})
+                out.append({"key": key, "file": rel, "fn": fn.qual, "kind": kind_, "message": msg, "guard": canon, "formula": formula, "chain": raw_chain, "node": x, "parents": ps, "fnobj": fn, "raised": raised, "where": ctx.where(f, x) if hasattr(ctx, "where") else ""})
     # a private helper referenced exactly once in its file is read in the context of that reference: extracting a
     # piece of a function into a helper (or inlining it back) leaves the chain unchanged
     by_file = {}
@@ -443,6 +448,13 @@ def collect(ctx):
                                 sub[pn] = a
                     if sub:
                         s_["chain"] = [_inline(_inline(c, sub), lets_g) for c in s_["chain"]]
+                    try:
+                        lg_txt = {n_: _r(e_) for n_, e_ in lets_g.items()}
+                        sub_txt = {n_: _r(e_) for n_, e_ in sub.items()}
+                        pre_f = GF.guard_formula(g, node, ps, lg_txt, lets_g)
+                        s_["formula"] = GF.f_and([pre_f, GF.map_text(s_["formula"], lambda t_: GF.subst_text(GF.subst_text(t_, sub_txt), lg_txt))])
+                    except Exception as ex_:
+                        s_["formula"] = ("atom", f"<unreadable: {type(ex_).__name__}>")
                     s_["chain"] = pre + s_["chain"]
                     s_["fnobj"] = g
                     s_["prefixed"] = s_.get("prefixed", 0) + 1
@@ -450,6 +462,7 @@ def collect(ctx):
     for s_ in out:
         for k_ in ("node", "parents", "fnobj", "chain", "prefixed"):
             s_.pop(k_, None)
+        s_["formula"] = GF.to_json(GF.alpha_formula(s_["formula"]))
     return out
 
 
@@ -514,6 +527,24 @@ def rule_reject_ledger(ctx):
             if x["guard"] in pool:
                 pool.remove(x["guard"])
                 led_left.append(x)
+        # conditions written differently but equivalent as formulas (nested match vs nested pattern, De Morgan,
+        # `==` vs `matches!`, early return vs nesting ..) are the same refusal
+        for a in list(cur_left):
+            fa = GF.from_json(a["formula"]) if a.get("formula") else None
+            if fa is None:
+                continue
+            for b in list(led_left):
+                if not b.get("formula") or b.get("kind") != a.get("kind"):
+                    continue
+                try:
+                    eq, _cex = GF.equivalent(fa, GF.from_json(b["formula"]))
+                except Exception:
+                    eq = False
+                if eq:
+                    cur_left.remove(a)
+                    led_left.remove(b)
+                    ctx.note(f"{rel}: `{a['fn']}` reaches `{(a['message'] or '')[:40]}` under a condition written differently from the audited one but equivalent to it")
+                    break
         while cur_left and led_left:
             a = cur_left.pop(0)
             b = next((x for x in led_left if x.get("message") == a["message"]), None) or next((x for x in led_left if x.get("fn") == a["fn"]), led_left[0])
